@@ -12,6 +12,7 @@ import argparse
 import importlib
 import json
 import os
+import signal
 import sys
 import traceback
 
@@ -20,7 +21,13 @@ sys.path.insert(0, HERE)
 os.environ.setdefault("PYTHONHASHSEED", "0")
 
 
+def _terminated(signum, frame):
+    # a killed check is a machinery failure, never a verdict; unwinding lets scratch directories and TLC children go
+    raise SystemExit(2)
+
+
 def main():
+    signal.signal(signal.SIGTERM, _terminated)
     ap = argparse.ArgumentParser()
     ap.add_argument("--property")
     ap.add_argument("--tier", default=None)
